@@ -272,6 +272,18 @@ def run_case(ctx, cid, P):
             if mx is not None and mx < 1:
                 mx = 1
             ok = do_read(side, mx, mn)
+        elif ver == (3, 4) and rng.random() < 0.5:
+            # re-keying between writes must not disturb the stream
+            from tlslite.constants import KeyUpdateMessageType as KU
+            t = drive.Task("ku", ends[side].send_keyupdate_request(
+                rng.choice([KU.update_requested, KU.update_not_requested])),
+                socks[side])
+            drive.run([t], p.link)
+            if t.status != "done":
+                fail("write_failed", exc=repr(t.exc or t.status),
+                     op="keyupdate")
+                ok = False
+            ctx.count("keyupdates")
         else:
             v = rng.choice(RECSIZES)
             ends[side].recordSize = v
@@ -289,6 +301,30 @@ def run_case(ctx, cid, P):
                     while ok and fifo[side].pending:
                         ok = do_read(peer[side], None, 1)
             ctx.count("alignment_sweeps")
+    # TLS 1.3: several key generations per direction, data in between
+    if ver == (3, 4) and ok:
+        from tlslite.constants import KeyUpdateMessageType as KU
+        for side in ("c", "s", "c", "s", "c"):
+            if not ok or ctx.expired():
+                break
+            t = drive.Task("ku", ends[side].send_keyupdate_request(
+                rng.choice([KU.update_requested, KU.update_not_requested])),
+                socks[side])
+            drive.run([t], p.link)
+            if t.status != "done":
+                fail("write_failed", exc=repr(t.exc or t.status),
+                     op="keyupdate")
+                ok = False
+                break
+            ctx.count("keyupdates")
+            ok = do_write(side, rng.choice([1, 50, 300]))
+            while ok and fifo[side].pending:
+                ok = do_read(peer[side], None, 1)
+            # the answer to update_requested travels the other way
+            if ok:
+                ok = do_write(peer[side], 20)
+                while ok and fifo[peer[side]].pending:
+                    ok = do_read(side, None, 1)
     # drain
     for side in ("c", "s"):
         f = fifo[peer[side]]
